@@ -62,7 +62,9 @@ func getCCS(mode string, d, b int) constraint.ConstraintSystem {
 		c, err = r1csx.Compile(circuits.NewDeletionProofCircuit(d, b))
 	}
 	if err != nil {
-		panic(err)
+		// e.g. "unconstrained input": keep going with the test engine only
+		fmt.Fprintf(os.Stderr, "compile %s d=%d b=%d failed: %v\n", mode, d, b, strings.SplitN(err.Error(), "\n", 2)[0])
+		c = nil
 	}
 	ccsCache[k] = c
 	return c
@@ -146,6 +148,7 @@ func main() {
 	n := flag.Int("n", 100, "cases")
 	maxDepth := flag.Int("maxdepth", 8, "max depth")
 	flag.IntVar(&fullPct, "fullpct", 0, "percentage of cases run through the full Insertion/Deletion circuits (BN254, small dims)")
+	mode := flag.String("mode", "both", "ins | del | both")
 	flag.Parse()
 	g := gen.New(*seed)
 	st := stats{byMode: map[string]int{}, byMut: map[string]int{}, byResult: map[string]int{}, byField: map[string]int{}}
@@ -189,7 +192,7 @@ func main() {
 			tree.Set(uint64(g.Intn(nIns)), big.NewInt(0))
 		}
 		var line, res, mut string
-		if g.Chance(1, 2) {
+		if *mode == "ins" || (*mode == "both" && g.Chance(1, 2)) {
 			line, res, mut = insertionCase(g, p, d, b, tree, nIns)
 			st.byMode["ins"]++
 		} else {
@@ -318,6 +321,9 @@ func insertionCase(g *gen.G, p *big.Int, d, b int, tree *ref.Tree, nIns int) (st
 	adv := map[string]error{}
 	if p == gen.BN254 && d <= 12 {
 		ccs := getCCS("ins", d, b)
+		if ccs == nil {
+			return line, verdict(errs, adv), "ins:" + mut
+		}
 		errs["r1cs"] = r1csx.Solve(ccs, mk(), nil)
 		adv["nbits+2^d"] = r1csx.Solve(ccs, mk(), map[hint.ID]hint.Function{r1csx.NBitsID: r1csx.NBitsOf(func(n *big.Int, nb int) *big.Int {
 			return n.Mod(n, new(big.Int).Lsh(big.NewInt(1), uint(nb)))
@@ -441,6 +447,9 @@ func deletionCase(g *gen.G, p *big.Int, d, b int, tree *ref.Tree, nIns int) (str
 	adv := map[string]error{}
 	if p == gen.BN254 && d <= 12 {
 		ccs := getCCS("del", d, b)
+		if ccs == nil {
+			return line, verdict(errs, adv), "del:" + mut
+		}
 		errs["r1cs"] = r1csx.Solve(ccs, mk(), nil)
 		adv["invzero=0"] = r1csx.Solve(ccs, mk(), map[hint.ID]hint.Function{r1csx.InvZeroID: r1csx.InvZeroConst(big.NewInt(0))})
 		adv["invzero=rnd"] = r1csx.Solve(ccs, mk(), map[hint.ID]hint.Function{r1csx.InvZeroID: r1csx.InvZeroConst(g.Below(p))})
